@@ -228,7 +228,9 @@ def histories(max_ticks: int = 40) -> Any:
             "sig": st.one_of(st.just([]), st.just([]), st.just([]), st.lists(st.sampled_from(["HUP", "FC", "HUP", "FC", "INT", "TERM"]), min_size=1, max_size=3)),
             # workers that are gone by the time the manager signals them although its is_alive() just said yes
             "vanish": st.one_of(st.just([]), st.just([]), st.just([]), st.lists(st.integers(0, W - 1), unique=True, max_size=W).map(sorted)),
-            "burst": st.sampled_from([0] * 12 + [150, 450]),     # that many file-change events arrive within this tick
+            "burst": st.sampled_from([0] * 12 + [150, 450]),
+            # how the dying workers ended: exit status > 0, or killed by a signal (negative: SIGKILL, SIGTERM, a real-time signal, ...)
+            "codes": st.dictionaries(st.sampled_from([str(i) for i in range(W)]), st.sampled_from([1, 3, 255, -9, -15, -11, -35, -64]), max_size=W),     # that many file-change events arrive within this tick
             "mid": st.one_of(st.just([]), st.just([]), st.just([]),
                              st.lists(st.tuples(st.integers(0, 14), st.sampled_from(["HUP", "FC", "INT", "TERM", "HUP"])).map(list), min_size=1, max_size=2)),
         })
